@@ -100,6 +100,85 @@ func (s Seg) appendTo(out []byte) []byte {
 		for i := 0; i < n; i++ {
 			out = append(out, out[len(out)-d])
 		}
+	case "ladder":
+		// back-references whose length classes and distance classes follow a steeply decreasing
+		// frequency ladder: very deep Huffman trees for both alphabets (rare symbols get 13..15-bit codes).
+		// One match = d fresh random bytes followed by a copy of the first l of them (distance d).
+		ratio := float64(s.A) / 10
+		if ratio < 1.3 {
+			ratio = 1.7
+		}
+		type class struct{ count, lenLo, lenHi, distLo, distHi int }
+		lens := [][2]int{{4, 4}, {5, 5}, {6, 6}, {7, 7}, {8, 8}, {9, 9}, {10, 10}, {11, 12}, {13, 14}, {19, 22}, {35, 42}, {67, 82}, {131, 162}, {163, 194}, {227, 257}}
+		dists := [][2]int{{5, 6}, {7, 8}, {9, 12}, {13, 16}, {17, 24}, {25, 32}, {33, 48}, {49, 64}, {65, 96}, {97, 128}, {129, 192}, {193, 256}, {257, 384}, {385, 512}, {513, 768}}
+		// scale the top count so that the whole ladder is about n bytes
+		unit := 0.0
+		f := 1.0
+		for i := range lens {
+			unit += f * float64((dists[i][0]+dists[i][1])/2+(lens[i][0]+lens[i][1])/2+1)
+			f /= ratio
+		}
+		c0 := float64(n) / unit
+		var order []int
+		f = c0
+		for i := range lens {
+			cnt := int(f + 0.5)
+			if cnt < 1 {
+				cnt = 1
+			}
+			for k := 0; k < cnt; k++ {
+				order = append(order, i)
+			}
+			f /= ratio
+		}
+		for i := len(order) - 1; i > 0; i-- {
+			j := int(x.next() % uint64(i+1))
+			order[i], order[j] = order[j], order[i]
+		}
+		// the three rarest classes once more at the very end
+		order = append(order, len(lens)-3, len(lens)-2, len(lens)-1)
+		end := len(out) + n
+		for _, ci := range order {
+			l := lens[ci][0] + int(x.next()%uint64(lens[ci][1]-lens[ci][0]+1))
+			d := dists[ci][0] + int(x.next()%uint64(dists[ci][1]-dists[ci][0]+1))
+			start := len(out)
+			for i := 0; i < d; i++ {
+				out = append(out, byte(x.next()>>24))
+			}
+			for i := 0; i < l; i++ {
+				out = append(out, out[start+i])
+			}
+			out = append(out, byte(x.next()>>24)|1)
+		}
+		for len(out) < end {
+			out = append(out, byte(x.next()>>24))
+		}
+		if len(out) > end {
+			// keep the tail (the rare classes are there)
+			copy(out[end-n:end], out[len(out)-n:])
+			out = out[:end]
+		}
+	case "interleave":
+		// UTF-16-like: every other byte is the constant A (exactly half of the bytes are one symbol)
+		for i := 0; i < n; i++ {
+			if i%2 == 1 {
+				out = append(out, byte(s.A))
+			} else {
+				// letters only (64..127), never equal to the constant 0 / 32 / 255; Seed odd: geometrically
+				// skewed (a deep Huffman tree, as for real text), Seed even: uniform
+				v := x.next()
+				if s.Seed%2 == 1 {
+					k := 0
+					for k < 40 && v&1 == 1 {
+						v >>= 1
+						k++
+					}
+					out = append(out, byte(64+k))
+				} else {
+					out = append(out, byte(64+(v>>24)%64))
+				}
+			}
+		}
 	case "farmix":
 		// short copies from far back (distance in (A/2, A]) interleaved with fresh random bytes:
 		// produces match tokens with long distance codes and many extra bits
@@ -216,7 +295,7 @@ func DrawLen(t *rapid.T, label string, max int) int {
 
 // DrawSeg draws one segment of about n bytes.
 func DrawSeg(t *rapid.T, n int) Seg {
-	kinds := []string{"rand", "rand", "text", "text", "run", "period", "repeat", "repeat", "fib", "near", "inc", "farmix"}
+	kinds := []string{"rand", "rand", "text", "text", "run", "period", "repeat", "repeat", "fib", "near", "inc", "farmix", "interleave", "ladder"}
 	k := rapid.SampledFrom(kinds).Draw(t, "kind")
 	s := Seg{Kind: k, N: n, Seed: rapid.Uint64Range(0, 1<<20).Draw(t, "seed")}
 	switch k {
@@ -232,6 +311,10 @@ func DrawSeg(t *rapid.T, n int) Seg {
 		}
 	case "repeat":
 		s.A = rapid.SampledFrom(distances).Draw(t, "dist")
+	case "ladder":
+		s.A = rapid.SampledFrom([]int{15, 17, 17, 20}).Draw(t, "ratio")
+	case "interleave":
+		s.A = rapid.SampledFrom([]int{0, 0, 32, 255}).Draw(t, "const")
 	case "farmix":
 		s.A = rapid.SampledFrom([]int{4096, 32768, 32768, 20000}).Draw(t, "maxdist")
 	case "fib":
